@@ -169,7 +169,7 @@ func genC03(g GenCtx) interface{} {
 	sc.ListLatMs = [2]int{lat[rng.Intn(len(lat))] / 2, lat[rng.Intn(len(lat))] / 2}
 	sc.VaryLat = rng.Intn(2) == 0
 	sc.Faults = map[string]world.Fault{}
-	kinds := []string{"watch-connect-error", "watch-connect-timeout", "watch-connect-canceled-error", "watch-close-mid", "watch-close-after-burst", "watch-close-idle", "watch-status-frame", "watch-expired-frame", "watch-connect-expired",
+	kinds := []string{"watch-connect-error", "watch-connect-timeout", "watch-connect-canceled-error", "watch-connect-api-error", "watch-close-mid", "watch-close-after-burst", "watch-close-idle", "watch-status-frame", "watch-expired-frame", "watch-connect-expired",
 		"watch-bookmark", "watch-drop", "watch-dup", "watch-replay", "watch-replay-idle", "watch-badobj", "watch-connect-delay", "watch-connect-hang"}
 	if rng.Intn(5) > 0 {
 		for _, k := range kinds {
@@ -217,7 +217,7 @@ func genC04(g GenCtx) interface{} {
 	sc.Init = genInit(rng, nkeys)
 	sc.ListLatMs = [2]int{pickInt(rng, 0, 0, 5), pickInt(rng, 0, 0, 5)}
 	sc.Faults = map[string]world.Fault{}
-	kinds := []string{"watch-connect-error", "watch-connect-timeout", "watch-connect-canceled-error", "watch-close-mid", "watch-close-after-burst", "watch-close-idle", "watch-status-frame", "watch-expired-frame", "watch-connect-expired", "watch-bookmark"}
+	kinds := []string{"watch-connect-error", "watch-connect-timeout", "watch-connect-canceled-error", "watch-connect-api-error", "watch-close-mid", "watch-close-after-burst", "watch-close-idle", "watch-status-frame", "watch-expired-frame", "watch-connect-expired", "watch-bookmark"}
 	for _, k := range kinds {
 		if rng.Intn(2) == 0 {
 			sc.Faults[k] = world.Fault{Budget: 1 + rng.Intn(3), Denom: 2 + rng.Intn(4)}
